@@ -77,6 +77,10 @@ class RateLimiter(BaseRateLimiter):
             if (now - timestamps[0]) > max(rules)[0]:
                 timestamps.clear()
             else:
+                # forget the timestamps that no rule looks at any more
+                horizon = max(rules)[0]
+                while (now - timestamps[-1]) > horizon:
+                    timestamps.pop()
                 for interval, freq in rules:
                     count = 0
                     for ts in timestamps:
